@@ -72,10 +72,10 @@ def main():
     hooks_commits = subprocess.run(["git", "-C", "/repo", "log", "--format=%h %s", "--grep=^verif hook"], capture_output=True, text=True).stdout.strip().splitlines()
     m = {
         "version": 1,
-        "setup_cmd": "cd /verif/harness && CARGO_NET_OFFLINE=true cargo build --release --offline -p vcheck",
+        "setup_cmd": "cd /verif/harness && CARGO_NET_OFFLINE=true cargo build --release --offline -p vcheck -p lsp",
         "hooks": {
             "guard": "cargo feature `verif` (crates syntax, ide, lsp); off by default",
-            "enable": "the harness depends on /repo/crates/{syntax,ide,lsp} by path with features=[\"verif\"]; ./check rebuilds it with `cargo build --release --offline -p vcheck` before every run",
+            "enable": "the harness depends on /repo/crates/{syntax,ide,lsp} by path with features=[\"verif\"]; ./check rebuilds it with `cargo build --release --offline -p vcheck -p lsp` (harness + the shipped binary, same tree) before every run",
             "baseline_off_cmd": "cd /repo && cargo test --workspace --no-fail-fast --offline",
             "source_commits": [c.split()[0] for c in hooks_commits],
             "add_only": True,
